@@ -106,6 +106,11 @@ CHECKS = {
             'Every duplicate must be refused with a configuration error; acceptance (with a report of what was written) or another exception class is a violation; un-duplicated controls must be accepted.',
             'pymath.* names and ADP dipole/quadrupole sections are outside the statement list.',
             'DESIGN.md 4/C20'),
+    'C09': (E1, 'exploration',
+            'bounded exhaustive enumeration on the real code of potential definitions of the documented grammar (nesting depth <= 2, thorough 3; 8 leaves; sum/product/pow/trans; range prefixes incl. ranges on nested modifiers) in 5 section kinds, of [Potential-Form] bodies of an expression grammar to depth 2 with two parameter vectors, of precedence probes and of formatting variants; oracle = reference evaluator of the documented semantics, bit-identity of variants, equality with the Python-API composition',
+            'Every generated definition / formula body is evaluated through the tabulation objects the config machinery builds and compared with the independent evaluator at 9 separations; every formatting variant must reproduce the canonical values bit for bit.',
+            'pow() with three arguments and a^b^c are undocumented and excluded; undefined sub-expressions are skipped and counted.',
+            'DESIGN.md 4/C09'),
 }
 
 NOT_YET = 'check not built yet in this revision of /verif (bounded exhaustive exploration applies; see DESIGN.md section 4)'
